@@ -38,7 +38,7 @@ NS == Len(SrcLens)
 Quick == Tier = "quick"
 Sorts1 == { << "i16", 2 >>, << "u8", 1 >>, << "f64", 2 >> }
 \* depth-2 scenarios: <<fmt, ch, leaves below depth 1>>; "core" = from_iter of sources {2,4},
-\* "coreX" = from_iter of sources {1,3,4} and equilibrium
+\* "coreX" = from_iter of sources {1,3,4}
 Sorts2 == IF Quick THEN { << "i16", 2, "core" >> }
           ELSE { << "i16", 2, "coreX" >>, << "u8", 1, "core" >>, << "f64", 2, "core" >> }
 
@@ -77,7 +77,7 @@ Leaves(f, ch, lv) ==
                                     \cup {[k |-> "byref", j |-> j] : j \in {1, 3}} \cup Leaf0s(f, ch)
                       ELSE {[k |-> kk, j |-> j] : kk \in LeafSrc, j \in 1..NS} \cup Leaf0s(f, ch)
     [] lv = "core"  -> {Src(j) : j \in {2, 4}}
-    [] lv = "coreX" -> {Src(j) : j \in {1, 3, 4}} \cup {[k |-> "eq"]}
+    [] lv = "coreX" -> {Src(j) : j \in {1, 3, 4}}
 
 Disjoint(a, b) == SrcsOf(a) \cap SrcsOf(b) = {}
 Pairs(A, B) == {p \in A \X B : Disjoint(p[1], p[2])}
